@@ -96,3 +96,19 @@ def cutAligned (g : Geom) (p : Pat) : Bool :=
     (rev.isPrefixOf suf || fwd.isSuffixOf g2)
 
 end Moclo
+
+namespace Moclo
+
+/-- **next-level layout** of a vector structure with overhang length `k`, relative to the next level's cutter
+geometry `g'`: both overhang groups are plain `N^k`, and the structure starts with `site' N^off'` and ends
+with `N^off' rc(site')` — either directly around the overhang groups (which then double as the next level's
+overhangs, `k = k'`), or with the next level's own `k'`-letter overhangs in between -/
+def nextLevelOK (g' : Geom) (k : Nat) (p : Pat) : Bool :=
+  match splitGroups p with
+  | none => false
+  | some (pre, g1, _, g3, suf) =>
+    g1 == nRun k && g3 == nRun k &&
+    ((pre == lits g'.site ++ nRun g'.off && suf == nRun g'.off ++ lits (rcNt g'.site) && k == g'.k) ||
+     (pre == lits g'.site ++ nRun g'.off ++ nRun g'.k && suf == nRun g'.k ++ nRun g'.off ++ lits (rcNt g'.site)))
+
+end Moclo
